@@ -994,6 +994,12 @@ class Interp:
     # does not match nothing is added and the value is the unchanged running total
     def v_sum(self, n, q, a):
         name = self._name(q, "sum")
+        if "onmatch" in q:
+            v0 = self.value(a[0])
+            if is_none(v0) or not is_numlike(v0):
+                # docs/functions/sum.md does not say whether a value that cannot be summed is an error when the onmatch gate may keep
+                # the function from summing at all: not asserted
+                raise Unspecified("sum.onmatch used as a value with an argument that is not a number")
         if not self._gate_onmatch(q):
             if name not in self.vars:
                 raise Unspecified("value of sum.onmatch before anything was summed")
